@@ -148,7 +148,7 @@ def run(run):
     if not cf:
         run.missing("C16.L2", "From<&str> for CellBuffer")
     else:
-        l2_paths(run, cf) or l2_shape(run, cf)
+        l2_combinator(run, cf) or l2_paths(run, cf) or l2_shape(run, cf)
     # ---------------- L3 grammar witnesses
     g, mod, gfile = load_parser_module(run)
     if g is None:
@@ -530,6 +530,99 @@ def l2_shape(run, cf, R="C16.L2"):
     else:
         run.bad(R, "legend-parse-shape", where(b), "expected one parse_css_legend and one add_css_styles call (found %d / %d)" % (len(parse_calls), len(add_calls)))
 
+
+
+def l2_combinator(run, cf, R="C16.L2"):
+    """L2 when the decision sits in a closure handed to `Option::and_then`:
+    `let legend = input.find("# Legend:").and_then(|loc| { let css = parse_css_legend(&input[loc..]).ok()?; Some((loc, css)) });`
+    followed by one construction fed by `match legend { Some((loc, css)) => (&input[..loc], css), None => (input, vec![]) }`.
+    Decided on the two paths of From<&str> and the paths of the closure.  Returns True if this is the form (verdict given)."""
+    from ..mirlib import paths as mir_paths
+    prog = run.prog
+    b = prog.bodies[cf]
+    ps = mir_paths(prog, cf, with_calls=True)
+    if not ps or len(ps) != 2:
+        return False
+    sel = None
+    for conds, ret, calls in ps:
+        for c, tk in conds:
+            c = strip(c)
+            if c[0] == "discr" and strip(c[1])[0] == "call" and re.search(r"Option::<T>::and_then$", strip(c[1])[1]):
+                sel = strip(c[1])
+    if sel is None:
+        return False
+    recv, clv = strip(sel[2][0]), strip(sel[2][1])
+    cl, caps = closure_of(clv)
+    problems = []
+    if not (recv[0] == "call" and recv[1].endswith("str::<impl str>::find") and strip(recv[2][0]) == ("param", 1, ()) and strip(recv[2][1]) == ("const", "str", "# Legend:")):
+        problems.append("the legend is not located by input.find(\"# Legend:\")")
+    if cl not in prog.bodies or not all(strip(v) == ("param", 1, ()) for v in caps.values()):
+        problems.append("the and_then closure captures something else than the input")
+    else:
+        cps = mir_paths(prog, cl) or []
+        somes = 0
+        for conds, ret in cps:
+            r = strip(simplify(ret))
+            parse_ok = None
+            for c, tk in conds:
+                c = strip(c)
+                if c[0] == "discr" and mentions(c, lambda z: z[0] == "call" and z[1].endswith("parser::parse_css_legend")):
+                    inner = strip(c[1])
+                    via_branch = inner[0] == "call" and inner[1].endswith("Try>::branch")
+                    truth = (tk == 0) if via_branch else (tk == (1 if mentions(inner, lambda z: z[0] == "call" and re.search(r"Result::<T, E>::ok$", z[1])) else 0))
+                    parse_ok = truth
+            if r[0] == "agg" and r[2] == "Some":
+                somes += 1
+                t_ = strip(r[3][0][1])
+                if parse_ok is not True:
+                    problems.append("the closure returns Some although the legend did not parse")
+                elif not (t_[0] == "agg" and len(t_[3]) == 2 and strip(t_[3][0][1]) == ("param", 2, ()) and mentions(t_[3][1][1], lambda z: z[0] == "call" and z[1].endswith("parser::parse_css_legend"))):
+                    problems.append("the closure does not return (loc, parsed entries)")
+                else:
+                    pcs = []
+                    mentions(t_[3][1][1], lambda z: z[0] == "call" and z[1].endswith("parser::parse_css_legend") and pcs.append(z) and False)
+                    pa = strip(pcs[0][2][0])
+                    if not (pa[0] == "call" and re.search(r"ops::index::Index<.*::index$", pa[1]) and mentions(pa[2][1], lambda z: z[0] == "agg" and str(z[1]).endswith("RangeFrom") and strip(dict(z[3])["start"]) == ("param", 2, ()))):
+                        problems.append("parse_css_legend does not receive input[loc..]")
+            elif not ((r[0] == "agg" and r[2] == "None") or (r[0] == "call" and "from_residual" in r[1])):
+                problems.append("the closure returns `%s`" % expr_str(r)[:60])
+        if somes != 1:
+            problems.append("the closure has %d Some results" % somes)
+    seen = set()
+    for conds, ret, calls in ps:
+        st = None
+        for c, tk in conds:
+            c = strip(c)
+            if c[0] == "discr" and strip(c[1]) == sel:
+                st = "some" if tk == 1 else "none"
+        sbs = [c for c in calls if re.search(r"StringBuffer as core::convert::From<&str>>::from$", c[1])]
+        adds = [c for c in calls if c[1].endswith("CellBuffer::add_css_styles")]
+        if st is None or len(sbs) != 1:
+            problems.append("a path builds %d string buffers" % len(sbs))
+            continue
+        seen.add(st)
+        src = strip(simplify(sbs[0][2][0]))
+        sty = strip(simplify(adds[0][2][1])) if adds else None
+        if st == "some":
+            cut_ok = src[0] == "call" and re.search(r"ops::index::Index<.*::index$", src[1]) and strip(src[2][0]) == ("param", 1, ()) and \
+                mentions(src[2][1], lambda z: z[0] == "agg" and str(z[1]).endswith("RangeTo") and mentions(z, lambda y: y[0] == "field" and strip(y[1]) == sel and tuple(y[2])[-3:] == ("@Some", "0", "0")))
+            sty_ok = sty is not None and sty[0] == "field" and strip(sty[1]) == sel and tuple(sty[2])[-3:] == ("@Some", "0", "1")
+            if not cut_ok:
+                problems.append("with a legend the drawing is `%s`, not input[..loc]" % expr_str(src)[:60])
+            if not sty_ok:
+                problems.append("the styles added are `%s`, not the parsed entries" % (expr_str(sty)[:60] if sty else "none"))
+        else:
+            if src != ("param", 1, ()):
+                problems.append("without a legend the drawing is `%s`, not the whole input" % expr_str(src)[:60])
+            if sty is not None and not (sty[0] == "call" and re.search(r"Vec::<T>::new$", sty[1])) and not (sty[0] == "agg" and not sty[3]):
+                problems.append("without a legend `%s` is added as styles" % expr_str(sty)[:60])
+    if seen != {"some", "none"}:
+        problems.append("the two outcomes of the legend search are not both handled")
+    if problems:
+        run.bad(R, "legend-cut", where(b), "; ".join(sorted(set(problems)))[:400])
+    else:
+        run.ok(R, "legend (combinator form): input.find(marker).and_then(parse ok -> (loc, entries)); Some -> input[..loc] drawn + entries added, None -> whole input", where(b))
+    return True
 
 
 def l2_paths(run, cf, R="C16.L2"):
